@@ -37,15 +37,28 @@ def ctor_fields(eng):
 
 
 def writer_fields(eng):
+    """key -> value expression written by to_dict: `d['k'] = v` statements, a dict literal `d = {'k': v, ...}` or `d = dict(k=v, ...)`;
+    one-expression helpers are inlined."""
+    from .common import inline_simple_calls
     td = eng.fn("solver.OptimResults.to_dict")
     out = {}
     dname = None
     for node in eng.prog.own_nodes(td):
-        if isinstance(node, ast.Assign) and len(node.targets) == 1 and isinstance(node.targets[0], ast.Subscript):
-            t = node.targets[0]
-            if isinstance(t.value, ast.Name) and isinstance(t.slice, ast.Constant) and isinstance(t.slice.value, str):
-                dname = t.value.id
-                out[t.slice.value] = node.value
+        if not (isinstance(node, ast.Assign) and len(node.targets) == 1):
+            continue
+        t = node.targets[0]
+        if isinstance(t, ast.Subscript) and isinstance(t.value, ast.Name) and isinstance(t.slice, ast.Constant) and isinstance(t.slice.value, str):
+            dname = t.value.id
+            out[t.slice.value] = inline_simple_calls(eng, node.value)
+        elif isinstance(t, ast.Name) and isinstance(node.value, ast.Dict) and node.value.keys and all(isinstance(k, ast.Constant) and isinstance(k.value, str) for k in node.value.keys):
+            dname = t.id
+            for k, v in zip(node.value.keys, node.value.values):
+                out[k.value] = inline_simple_calls(eng, v)
+        elif isinstance(t, ast.Name) and isinstance(node.value, ast.Call) and isinstance(node.value.func, ast.Name) and node.value.func.id == "dict" and node.value.keywords \
+                and not node.value.args and all(kw.arg for kw in node.value.keywords):
+            dname = t.id
+            for kw in node.value.keywords:
+                out[kw.arg] = inline_simple_calls(eng, kw.value)
     return td, dname, out
 
 
@@ -56,21 +69,23 @@ def reader_fields(eng):
     reads = {}   # local -> (key, expr)
     ctor = None
     post = {}    # attribute -> expr (soln.attr = ...)
+    from .common import inline_simple_calls
     for node in eng.prog.own_nodes(fd):
         if isinstance(node, ast.Assign) and len(node.targets) == 1:
             t = node.targets[0]
-            keys = _keys_read(node.value, dparam)
+            if isinstance(t, ast.Name) and isinstance(node.value, ast.Call):
+                ci = eng.res.calls.get(id(node.value))
+                if ci and any(x.fid == "solver.OptimResults.__init__" for x in ci.targets):
+                    ctor = (t.id, node.value)
+                    continue
+            value = inline_simple_calls(eng, node.value)       # `_array_or_none(d, 'x', float)` reads key 'x' exactly like the expression it wraps
+            keys = _keys_read(value, dparam)
             if isinstance(t, ast.Name):
-                if isinstance(node.value, ast.Call):
-                    ci = eng.res.calls.get(id(node.value))
-                    if ci and any(x.fid == "solver.OptimResults.__init__" for x in ci.targets):
-                        ctor = (t.id, node.value)
-                        continue
                 if len(keys) == 1:
-                    reads[t.id] = (list(keys)[0], node.value)
+                    reads[t.id] = (list(keys)[0], value)
             elif isinstance(t, ast.Attribute) and isinstance(t.value, ast.Name):
                 if len(keys) == 1:
-                    post[t.attr] = (list(keys)[0], node.value)
+                    post[t.attr] = (list(keys)[0], value)
     return fd, dparam, reads, ctor, post
 
 
@@ -124,7 +139,8 @@ def rule_field_agreement(eng, rep):
         if isinstance(e, ast.Name) and e.id in reads:
             key = reads[e.id][0]
         else:
-            ks = _keys_read(e, dparam)
+            from .common import inline_simple_calls
+            ks = _keys_read(inline_simple_calls(eng, e), dparam)
             key = list(ks)[0] if len(ks) == 1 else None
         if key is None:
             rep.unknown(rule, site_r, "cannot tell which key feeds constructor parameter %s (%s)" % (p, short(e)))
@@ -446,10 +462,11 @@ def rule_diag_columns_scalar(eng, rep):
             for side in (node.left, node.comparators[0]):
                 if isinstance(side, ast.Constant) and isinstance(side.value, str):
                     optional.add(side.value)
-    cfg = eng.cfg(si)
+    from .common import unrolled
+    view, cfg = unrolled(eng, si)      # `for key in ("a", "b"): self.data[key].append(None)` counts as one append per key
     vec_positions = {0, 1, 3, 6}   # x, rvec, jac, jac_eval_nums of Model.get_final_results
     ncol = 0
-    for node in eng.prog.own_nodes(si):
+    for node in [sub for st in view.body() for sub in ast.walk(st)]:
         col = _append_column(node)
         if col is None:
             continue
